@@ -405,7 +405,7 @@ class Interp:
             r_ = self.ext_binop(self, op, a, b)
             if r_ is not None:
                 return r_
-        if a[0] == 'bv' or b[0] == 'bv':
+        if a[0] == 'bv' or b[0] == 'bv' or (self.bv_arith is not None and (a[0] == 'sym' or b[0] == 'sym')):
             return self.bv_binop(op, a, b)
         if a[0] == 'bool' and b[0] == 'bool':
             f = {'Eq': lambda x, y: x == y, 'Ne': lambda x, y: x != y, 'BitAnd': lambda x, y: x and y,
